@@ -181,6 +181,7 @@ func TestVerifC12Handle(t *testing.T) {
 				}
 				// log lines
 				nHeader, nItems := 0, 0
+				var items []string
 				for _, e := range h.tr.Events()[logsBefore:] {
 					if e.Kind != "log" {
 						continue
@@ -190,10 +191,51 @@ func TestVerifC12Handle(t *testing.T) {
 					}
 					if strings.Contains(e.Msg, ": inconsistency ") {
 						nItems++
+						items = append(items, e.Msg)
 					}
 				}
 				if nItems != len(want) || (nHeader == 1) != (len(want) > 0) || nHeader > 1 {
 					viol, cls = fmt.Sprintf("%d inconsistency log lines (+%d header) for %d expected inconsistencies", nItems, nHeader, len(want)), "log"
+					break
+				}
+				// each inconsistency has a line of its own that names its field and, when
+				// it has them, its details (the prefix or route it is about) - and no
+				// line names the details of another inconsistency of this RA
+				var allDetails []string
+				for _, w := range want {
+					if fd := strings.SplitN(w, "|", 2); fd[1] != "" {
+						allDetails = append(allDetails, fd[1])
+					}
+				}
+				used := make([]bool, len(items))
+				for _, w := range want {
+					fd := strings.SplitN(w, "|", 2)
+					found := false
+					for li, line := range items {
+						if used[li] || !strings.Contains(line, fd[0]) {
+							continue
+						}
+						ok := true
+						if fd[1] != "" {
+							ok = strings.Contains(line, fd[1])
+						} else {
+							for _, d := range allDetails {
+								if strings.Contains(line, "("+d+")") {
+									ok = false
+								}
+							}
+						}
+						if ok {
+							used[li], found = true, true
+							break
+						}
+					}
+					if !found {
+						viol, cls = fmt.Sprintf("no log line reports the inconsistency %q under its own field and details; the lines are %q", w, items), "log-labels"
+						break
+					}
+				}
+				if viol != "" {
 					break
 				}
 				// examining a peer's RA must leave our own untouched: the RA the
